@@ -51,9 +51,15 @@ func semaAcquire(addr *uint32) {
 		st.mu.Lock()
 		for {
 			v = latomic.LoadUint32(addr)
-			if v != 0 && latomic.CompareAndSwapUint32(addr, v, v-1) {
-				st.mu.Unlock()
-				return
+			if v != 0 {
+				if latomic.CompareAndSwapUint32(addr, v, v-1) {
+					st.mu.Unlock()
+					return
+				}
+				// Lost the race for this permit to a lock-free acquirer: others
+				// may remain, and no release need follow, so look again - sleep
+				// only after seeing a zero count under the lock.
+				continue
 			}
 			st.waiters++
 			st.cond.Wait(&st.mu)
